@@ -46,6 +46,28 @@ def idx {α : Type} [Inhabited α] (xs : List α) (i : Int) : α := xs.getD i.to
 /-- `xs[i] = v` — same restriction -/
 def set {α : Type} (xs : List α) (i : Int) (v : α) : List α := xs.set i.toNat v
 
+/-- one iteration of a loop that contains `break` -/
+inductive Step3 (σ ρ : Type) where
+  | next (st : σ)
+  | brk (st : σ)
+  | ret (v : ρ)
+
+/-- `for i := 0; i < n; i++ { body }` / `for i := range` with `break`: like `forN`; `break` leaves the loop
+with the state it carries and the function goes on after the loop -/
+def forB {σ ρ : Type} (body : Int → σ → Step3 σ ρ) : (n start : Nat) → σ → Step σ ρ
+  | 0, _, st => .next st
+  | n + 1, i, st =>
+    match body (Int.ofNat i) st with
+    | .next st' => forB body n (i + 1) st'
+    | .brk st' => .next st'
+    | .ret v => .ret v
+
+/-- `len(xs)` of a slice -/
+def lenL {α : Type} (xs : List α) : Int := Int.ofNat xs.length
+
+/-- `make([]T, n)`: `n` zero values -/
+def make {α : Type} [Inhabited α] (n : Int) : List α := List.replicate n.toNat default
+
 /-! ### package `strings` -/
 
 def lowerASCII (c : Char) : Char := if 'A' ≤ c ∧ c ≤ 'Z' then Char.ofNat (c.toNat + 32) else c
